@@ -11,7 +11,7 @@ from pathlib import Path
 import codec
 
 PROP = "C01"
-LEAN_MODULES = ["Props.C01", "Props.Legacy"]
+LEAN_MODULES = ["Props.C01", "Props.C01F", "Props.Legacy"]
 RULE = (
     "case = (positional layout of 1-8 fields of mixed kinds in any order with gaps, value list, optional construction "
     "history through the Line setters incl. intermediate delimited use). The real Line writes the values, reads the "
@@ -32,7 +32,7 @@ ASSUMPTIONS = [
 TRUSTED = ["CPython round()/format()/float()/int()/strftime/strptime are correctly rounded / as documented; the model computes the same results exactly and is compared with them on every case"]
 NOT_THEOREMS = ['stability clause (rewritten == written) for float fields in E notation (F notation is proved, the decimals-dropping loop included: Props.C01.law_flt_F_gen, main_F): render(parse(render x)) = render x is a hypothesis (RenderLaw, third clause) of Props.C01.line_stable, validated here by exact text equality with the model on every case; the read-back clause IS a theorem for every layout without date fields in Spec.C01.inDomain (Props.C01.readBack_of_inDomain)',
                 
-                'Spec.C01.floatClauses (dialect, half-unit accuracy under |x|*10^D<2^51, maximal decimals): evaluated per case']
+                'Spec.C01.floatClauses (dialect, half-unit accuracy, maximal decimals) for E-notation floats: evaluated per case (F notation: theorem Props.C01.main_F_full)']
 EXHAUSTIVE = {"quick": False, "thorough": False}
 
 DATE_FMTS = ["%Y/%m/%d", "%d/%m/%Y", "%Y-%m-%d %H:%M", "%d%m%y", "%H:%M:%S", "%Y%m%d%H%M%S", "%d/%m/%Y %H:%M:%S.%f", "%m/%Y", "%y-%m-%d",
